@@ -1,7 +1,7 @@
 (* C11 - watermarks are monotone; operators act on the minimum of their upstreams.  Statements only.
    Time = Z nanoseconds since the Unix epoch; go_zero_time = time.Time{} = year 1 = -62135596800 s. *)
 From Coq Require Import ZArith List Sorted.
-From RV Require Import Model.Wmark Proofs.C11_Wmark.
+From RV Require Import Model.Wmark Model.UpstreamWm Proofs.C11_Wmark Proofs.C11_Upstream.
 Import ListNotations.
 Open Scope Z_scope.
 
@@ -12,7 +12,7 @@ Open Scope Z_scope.
 Theorem wm_monotone : forall late ops,
   StronglySorted Z.le (map instant (wm_trace (wm_new late) ops)) /\
   forall w ts, wm_current w <= wm_current (wm_advance w ts).
-Proof. intros late ops. split; [apply wm_monotone_l|apply wm_step_monotone]. Qed.
+Proof. exact wm_monotone_full. Qed.
 Print Assumptions wm_monotone.
 
 (* follows the largest forwarded timestamp exactly: max - lateness - 1 ns (so it advances with event time);
@@ -21,7 +21,7 @@ Theorem wm_tracks : forall late,
   (forall tss, wm_current (wm_run late tss) = zmax_list go_zero_time tss - late - 1) /\
   (forall ops, map instant (wm_trace (wm_new late) ops) =
                map (fun fw => zmax_list go_zero_time fw - late - 1) (wm_forwarded_before [] ops)).
-Proof. intro late. split; [apply wm_tracks_l|apply wm_trace_tracks_l]. Qed.
+Proof. exact wm_tracks_full. Qed.
 Print Assumptions wm_tracks.
 
 (* never reaches the largest forwarded timestamp: for every sequence with largest element mx that is a
@@ -44,21 +44,14 @@ Proof. vm_compute. reflexivity. Qed.
 Theorem stamp_after_forwarded : forall ops pre stamp post,
   pipe_run (wm_new 0) ops = pre ++ SendW stamp :: post ->
   stamp = pb_new (zmax_list go_zero_time (sent_ts pre) - 1) /\ 0 <= snd stamp < NS.
-Proof.
-  intros ops pre stamp post H. pose proof (stamp_after_forwarded_l _ _ _ _ H) as Hs.
-  split; [exact Hs|]. rewrite Hs. apply pb_new_normal.
-Qed.
+Proof. exact stamp_after_forwarded_full. Qed.
 Print Assumptions stamp_after_forwarded.
 
 Theorem stamps_monotone_and_below : forall ops pre stamp post,
   pipe_run (wm_new 0) ops = pre ++ SendW stamp :: post ->
   (forall mid s2 post', post = mid ++ SendW s2 :: post' -> instant stamp <= instant s2) /\
   (forall t, In t (sent_ts pre) -> (forall x, In x (sent_ts pre) -> x <= t) -> go_zero_time <= t -> instant stamp = t - 1).
-Proof.
-  intros ops pre stamp post H. split.
-  - intros mid s2 post' ->. eapply stamps_monotone_l. exact H.
-  - intros t Hin Hle Hz. eapply stamp_below_forwarded_l; eauto.
-Qed.
+Proof. exact stamps_monotone_and_below_full. Qed.
 Print Assumptions stamps_monotone_and_below.
 
 (* protobuf conversions lose nothing: AsTime (New t) = t with nanos in [0, 1e9) *)
@@ -66,10 +59,75 @@ Theorem pb_roundtrip : forall t, as_time (Some (pb_new t)) = t /\ 0 <= snd (pb_n
 Proof. exact pb_roundtrip_l. Qed.
 Print Assumptions pb_roundtrip.
 
+(* --- the operator's effective watermark --- *)
+
+(* For every set of configured runners and every history of AdvanceWatermark (any senders, known or not, any
+   order, regressing or not) and SetTimer calls, the registry's cached watermark is the specified composite:
+   before the first watermark message the zero time.Time (year 1, below the epoch - what the code starts
+   with); afterwards the MINIMUM over all participants (configured runners and senders seen so far) of their
+   latest report, where a runner that has not reported counts as the epoch and only a sender's most recent
+   message counts. *)
+Theorem composite_is_min : forall ids ops,
+  let msgs := rop_msgs ops in
+  let c := r_wm (reg_run (reg_new ids) ops) in
+  c = spec_composite ids msgs /\
+  (msgs = [] -> c = go_zero_time /\ go_zero_time < epoch) /\
+  (msgs <> [] -> (forall s, In s (participants ids msgs) -> c <= latest msgs s) /\
+                 (exists s, In s (participants ids msgs) /\ c = latest msgs s)) /\
+  (forall s, ~ In s (map fst msgs) -> latest msgs s = epoch) /\
+  (forall m1 s t m2, msgs = m1 ++ (s, t) :: m2 -> ~ In s (map fst m2) -> latest msgs s = t).
+Proof. exact composite_is_min_full. Qed.
+Print Assumptions composite_is_min.
+
+(* Every AdvanceWatermark of every history leaves the cached watermark at the specified composite of the
+   messages so far, and every timer it fires is at or before that minimum. *)
+Theorem no_timer_beyond_min : forall ids ops i fired w,
+  nth_error (reg_trace (reg_new ids) ops) i = Some (fired, w) ->
+  w = spec_composite ids (rop_msgs (firstn (S i) ops)) /\ forall t k, In (t, k) fired -> t <= w.
+Proof. exact no_timer_beyond_min_full. Qed.
+Print Assumptions no_timer_beyond_min.
+
+(* SetTimer at or before the composite watermark is a no-op *)
+Theorem set_timer_guard : forall r k t, t <= r_wm r -> set_timer r k t = r.
+Proof. exact set_timer_guard_full. Qed.
+Print Assumptions set_timer_guard.
+
+(* For every handler (any function), every batch size, every interleaving of keyed events and watermark
+   messages: the Watermark field of every ProcessEventBatchRequest issued while the i-th incoming event is
+   handled is the specified composite of the watermark messages among the first i+1 events. *)
+Theorem handler_told_composite : forall (h : handler) ids m ops i calls,
+  nth_error (op_trace h m (op_new ids) ops) i = Some calls ->
+  forall c, In c calls -> c_told c = pb_new (spec_composite ids (oop_msgs (firstn (S i) ops))).
+Proof. exact handler_told_composite_full. Qed.
+Print Assumptions handler_told_composite.
+
+(* ... and every TimerExpired the handler ever receives is not later than the composite that held right after
+   one of the watermark messages handled so far (with batches > 1 a fired timer may be delivered later). *)
+Theorem no_timer_beyond_min_at_handler : forall (h : handler) ids m ops i calls,
+  nth_error (op_trace h m (op_new ids) ops) i = Some calls ->
+  forall c, In c calls -> forall k t, In (HT k t) (c_events c) ->
+  exists n, (0 < n <= length (oop_msgs (firstn (S i) ops)))%nat /\
+            t <= spec_composite ids (firstn n (oop_msgs (firstn (S i) ops))).
+Proof. exact no_timer_beyond_min_at_handler_full. Qed.
+Print Assumptions no_timer_beyond_min_at_handler.
+
 (* non-vacuity *)
 Example wm_example : map instant (wm_trace (wm_new 0) [WAdv (Some (5, 0)); WCur; WAdv (Some (3, 7)); WCur; WAdv None; WAdv (Some (9, -1)); WCur])
                      = [4999999999; 4999999999; 8999999998].
 Proof. vm_compute. reflexivity. Qed.
 Example pipe_example : pipe_run (wm_new 0) [PW; PK [(0%N, 1%N, Some (7, 0)); (1%N, 2%N, Some (2, 5))]; PW]
                      = [SendW (-62135596801, 999999999); SendK 0 1 (Some (7, 0)); SendK 1 2 (Some (2, 5)); SendW (6, 999999999)].
+Proof. vm_compute. reflexivity. Qed.
+
+(* the repository's two-upstream scenario, in both arrival orders, and an unknown sender *)
+Example reg_example :
+  reg_trace (reg_new [1%N; 2%N]) [RSet 7 (tm 2 0); RAdv 1 (Some (2, 0)); RAdv 2 (Some (1, 0)); RAdv 2 (Some (2, 0))]
+  = [([], go_zero_time); ([], 0); ([], tm 1 0); ([(tm 2 0, 7%N)], tm 2 0)] /\
+  reg_trace (reg_new [1%N; 2%N]) [RSet 7 (tm 2 0); RAdv 2 (Some (2, 0)); RAdv 9 (Some (5, 0)); RAdv 1 (Some (3, 0)); RAdv 1 (Some (1, 0))]
+  = [([], go_zero_time); ([], 0); ([], 0); ([(tm 2 0, 7%N)], tm 2 0); ([], tm 1 0)].
+Proof. vm_compute. split; reflexivity. Qed.
+Example op_example :
+  map (map c_told) (op_trace (fun _ evs => map (fun e => match e with HK _ k ts => (k, ts) | HT k _ => (k, []) end) evs) 1 (op_new [1%N; 2%N])
+    [OEv 1 1 7 [Some (2, 0)]; OWm 1 (Some (3, 0)); OWm 2 (Some (2, 5)); OEv 2 2 7 []])
+  = [[(-62135596800, 0)]; []; [(2, 5)]; [(2, 5)]].
 Proof. vm_compute. reflexivity. Qed.
